@@ -97,12 +97,14 @@ func read(pf func() *parser.Parser, lastEventID string, onRetry func(int64), ign
 				lastEventID = f.Value
 				dirty = true
 			case parser.FieldNameRetry:
-				n, err := strconv.ParseInt(f.Value, 10, 64)
+				// The value must consist of ASCII digits only: unlike ParseInt,
+				// ParseUint does not accept a sign.
+				n, err := strconv.ParseUint(f.Value, 10, 63)
 				if err != nil {
 					break
 				}
-				if n >= 0 && onRetry != nil {
-					onRetry(n)
+				if onRetry != nil {
+					onRetry(int64(n)) //nolint:gosec // n fits in 63 bits
 					dirty = true
 				}
 			default:
